@@ -70,6 +70,32 @@ func containsAndOr(sql string) bool {
 	return false
 }
 
+// singleRawSQL returns the raw SQL of a condition that is rendered without
+// parentheses of its own: a raw expression, possibly nested in And / Or
+// conditions holding a single member
+func singleRawSQL(expr Expression) (string, bool) {
+	for {
+		switch v := expr.(type) {
+		case Expr:
+			return v.SQL, true
+		case NamedExpr:
+			return v.SQL, true
+		case AndConditions:
+			if len(v.Exprs) != 1 {
+				return "", false
+			}
+			expr = v.Exprs[0]
+		case OrConditions:
+			if len(v.Exprs) != 1 {
+				return "", false
+			}
+			expr = v.Exprs[0]
+		default:
+			return "", false
+		}
+	}
+}
+
 func buildExprs(exprs []Expression, builder Builder, joinCond string) {
 	wrapInParentheses := false
 
@@ -83,23 +109,8 @@ func buildExprs(exprs []Expression, builder Builder, joinCond string) {
 		}
 
 		if len(exprs) > 1 {
-			switch v := expr.(type) {
-			case OrConditions:
-				if len(v.Exprs) == 1 {
-					if e, ok := v.Exprs[0].(Expr); ok {
-						wrapInParentheses = containsAndOr(e.SQL)
-					}
-				}
-			case AndConditions:
-				if len(v.Exprs) == 1 {
-					if e, ok := v.Exprs[0].(Expr); ok {
-						wrapInParentheses = containsAndOr(e.SQL)
-					}
-				}
-			case Expr:
-				wrapInParentheses = containsAndOr(v.SQL)
-			case NamedExpr:
-				wrapInParentheses = containsAndOr(v.SQL)
+			if sql, ok := singleRawSQL(expr); ok {
+				wrapInParentheses = containsAndOr(sql)
 			}
 		}
 
